@@ -195,7 +195,10 @@ SPREAD_FAULTS = [
     ("chain-mul", ["2", "*", "3", "*", "'x'", "*", "4"], 3), ("chain-div-mod", ["8", "/", "2", "%", "0"], 3),
     ("chain-mixed", ["1", "+", "2", "*", "TRUE"], 3), ("chain-first", ["TRUE", "-", "1", "-", "2"], 1),
     ("chain-compare", ["1", "+", "1", "<", "2", "+", "NULL", "<", "'a'", "-", "1"], 9),
-    ("call-args", ["length", "(", "1", ")"], 1), ("nested-call", ["string", "(", "length", "(", "5", ")", ")"], 3),
+    ("call-args", ["length", "(", "1", ")"], 1),
+    ("pipe-call", ["5", "!>", "length", "(", ")"], 2), ("pipe-call-named", ["5", "!>", "substr", "(", "startidx", "=", "1", ",", "endidx", "=", "2", ")"], 2),
+    ("pipe-chain", ["[", "1", "]", "!>", "reverse_list", "(", ")", "!>", "substr", "(", "0", ")"], 8),
+    ("method-call", ["<*", "a", "=", "1", "*>", "->", "nomethod", "(", "1", ",", "2", ")"], 5), ("nested-call", ["string", "(", "length", "(", "5", ")", ")"], 3),
     ("index-chain", ["[", "[", "1", "]", "]", "[", "0", "]", "[", "5", "]"], 8),
 ]
 
